@@ -78,18 +78,44 @@ def tables_cell(out, notes):
     out.append(f"Definition sep0 : char := {coq_char(seps[0])}.")
     out.append(f"Definition sep1 : char := {coq_char(seps[1])}.")
     out.append(f"Definition esc_char : char := {coq_char(esc)}.")
-    # the temporary character of cleanse: function-local literal, else behavioural probe
+    # the temporary character of cleanse, IF the code has one (the three-replace un-escape parks escaped
+    # backslashes in a character that a value may then not contain; the one-pass un-escape has none).
+    # Read the function-local literal when there is one, and in every case probe the behaviour: a character c
+    # is "used up" by cleanse when it does not come back from the middle of an otherwise plain word.
+    # Candidates: U+0000..U+02FF plus every one-character string constant in CellParser's source.
+    ast_tmp = None
     try:
-        tmp = local_literal(CellParser.cleanse, "TEMP_CHARACTER")
-        notes.append("tmp_char: read from the ast of CellParser.cleanse")
-    except Exception as e:
-        cp = CellParser()
-        cands = [chr(i) for i in range(0x300) if cp.cleanse(chr(i)) != chr(i).strip()]
-        if len(cands) != 1:
-            raise Refuse(f"cannot determine cleanse's temporary character (ast: {e}; probe: {cands!r})")
-        tmp = cands[0]
-        notes.append("tmp_char: TABULATED by probing CellParser.cleanse over U+0000..U+02FF")
-    out.append(f"Definition tmp_char : char := {coq_char(tmp)}.")
+        ast_tmp = local_literal(CellParser.cleanse, "TEMP_CHARACTER")
+        if not (isinstance(ast_tmp, str) and len(ast_tmp) == 1):
+            raise Refuse(f"CellParser.cleanse.TEMP_CHARACTER is not one character: {ast_tmp!r}")
+    except Refuse as e:
+        if "expected exactly one literal assignment" not in str(e) or "found 0" not in str(e):
+            raise
+    cands = {chr(i) for i in range(0x300)}
+    try:
+        for node in ast.walk(ast.parse(textwrap.dedent(inspect.getsource(CellParser)))):
+            if isinstance(node, ast.Constant) and isinstance(node.value, str) and len(node.value) == 1:
+                cands.add(node.value)
+    except (OSError, TypeError, SyntaxError) as e:
+        raise Refuse(f"cannot read the source of CellParser: {e}")
+    if ast_tmp is not None:
+        cands.add(ast_tmp)
+    cp = CellParser()
+    used_up = sorted(c for c in cands if cp.cleanse("a" + c + "b") != "a" + c + "b")
+    if ast_tmp is not None:
+        if used_up != [ast_tmp]:
+            raise Refuse(f"cleanse names TEMP_CHARACTER {ast_tmp!r} but the characters it uses up are {used_up!r}")
+        tmp = ast_tmp
+        notes.append("cleanse_tmp: read from the ast of CellParser.cleanse (TEMP_CHARACTER), confirmed by probing")
+    elif len(used_up) == 1:
+        tmp = used_up[0]
+        notes.append("cleanse_tmp: TABULATED by probing CellParser.cleanse over U+0000..U+02FF and the literals of the class")
+    elif not used_up:
+        tmp = None
+        notes.append("cleanse_tmp: None - no TEMP_CHARACTER in the ast and no probed character is used up by cleanse")
+    else:
+        raise Refuse(f"cleanse uses up several characters: {used_up!r}")
+    out.append("Definition cleanse_tmp : option char := " + ("None" if tmp is None else f"Some {coq_char(tmp)}") + ".")
 
 
 # ----------------------------------------------------------------------------- E3
